@@ -31,7 +31,7 @@ pub struct StreamCase {
 
 fn produce(prog: &Program) -> Result<(Vec<BddNode>, Vec<BddNode>), String> {
     let (s, r) = crossbeam_channel::unbounded::<BddNode>();
-    let mut sh = Shadow::with_bdd(prog.k as usize, Bdd::with_sender(s));
+    let mut sh = Shadow::with_bdd(prog.k as usize, Bdd::with_sender(s)).with_spread(prog.spread);
     for (i, op) in prog.ops.iter().enumerate() {
         sh.step(op).map_err(|e| format!("producer step {i}: {e}"))?;
     }
@@ -81,7 +81,7 @@ fn poll(m: &mut Mirror, t: usize, avail: usize, final_nodes: &[BddNode]) -> Resu
 /// the listener hangs up in the middle of the producer's work: the producer must stay a correct store
 fn producer_survives_hangup(prog: &Program, after: usize) -> Result<(), String> {
     let (s, r) = crossbeam_channel::unbounded::<BddNode>();
-    let mut sh = Shadow::with_bdd(prog.k as usize, Bdd::with_sender(s));
+    let mut sh = Shadow::with_bdd(prog.k as usize, Bdd::with_sender(s)).with_spread(prog.spread);
     let mut r = Some(r);
     for (i, op) in prog.ops.iter().enumerate() {
         if i == after {
@@ -255,7 +255,7 @@ fn c19_threads(c: &StreamCase, st: &mut Stats) -> CheckResult {
             }
         }
         let _g = SetOnDrop(done2);
-        let mut sh = Shadow::with_bdd(prog.k as usize, Bdd::with_sender(s));
+        let mut sh = Shadow::with_bdd(prog.k as usize, Bdd::with_sender(s)).with_spread(prog.spread);
         for (i, op) in prog.ops.iter().enumerate() {
             sh.step(op).map_err(|e| format!("producer step {i}: {e}"))?;
             if i % 3 == 0 {
